@@ -315,6 +315,33 @@ func main() {
 		facts["DecodeFrom_calls"] = calls
 		return fmt.Sprintf("-- advisory: calls in DecodeFrom: %v", calls)
 	})
+	// ---- config/git_fetcher.go + docs/man/git-lfs-config.adoc (C11)
+	emit("safeKeys", func() string { return "def safeKeys : List Bytes := " + bytesList(cfg.strs("safeKeys")) })
+	emit("docLfsconfigKeys", func() string {
+		b, err := os.ReadFile(filepath.Join(repo, "docs", "man", "git-lfs-config.adoc"))
+		if err != nil {
+			die("%v", err)
+		}
+		txt := string(b)
+		i := strings.Index(txt, "== LFSCONFIG")
+		if i < 0 {
+			die("no LFSCONFIG section in git-lfs-config.adoc")
+		}
+		txt = txt[i+len("== LFSCONFIG"):]
+		if j := strings.Index(txt, "\n== "); j >= 0 {
+			txt = txt[:j]
+		}
+		var keys []string
+		for _, l := range strings.Split(txt, "\n") {
+			if strings.HasPrefix(l, "* ") {
+				keys = append(keys, strings.ReplaceAll(strings.TrimSpace(l[2:]), "\\", ""))
+			}
+		}
+		if len(keys) == 0 {
+			die("no keys listed in the LFSCONFIG section")
+		}
+		return "def docLfsconfigKeys : List Bytes := " + bytesList(keys)
+	})
 	// ---- creds/creds.go (C17)
 	crd := safeLoad(filepath.Join(repo, "creds"))
 	emit("credProtectProtocolDefault", func() string {
